@@ -168,6 +168,24 @@ for a in pool.tab:
         add(0, ((1, a),), wkind=2, wvals=[e], tag="node-energy")
     add(2, ((1, a),), wkind=1, vector=True, wvals=[0.05, nodes[0], rng.choice(nodes), 50.0], tag="direct-vector")
 
+# ---------------------------------------------------------------- A''. the tables against their own third column
+# every row of the Lynn & Seeger tables gives Re(a), Im(a) and |a| to two decimals; the library reads the first two,
+# the third tells a mis-typed cell (theorem C03_energy_tables_modulus_consistent_partial states the same over Gen)
+from periodictable import nsf_tables as _nt
+stats["table_rows_checked"] = 0
+for (sym, iso), rows in _nt.ENERGY_DEPENDENT_TABLES.items():
+    for row in rows:
+        stats["table_rows_checked"] += 1
+        e, re_, im_, mod = [float(x) for x in row[:4]]
+        if abs(math.hypot(re_, im_) - mod) > 0.0125:
+            who = "%s%s" % (sym, "" if iso is None else "[%d]" % iso)
+            atom = TABLE.symbol(sym) if iso is None else TABLE.symbol(sym)[iso]
+            served = attempt(lambda: atom.neutron.scattering_by_wavelength(nsf.neutron_wavelength(e * 1000.0))[0])
+            fail("C03:energy-table-row-inconsistent:%s:%g" % (who, e),
+                 "energy-dependent table of %s, row %g eV: Re(a) = %r, Im(a) = %r but |a| = %r (sqrt(Re^2+Im^2) = %.4f); "
+                 "%s.neutron at that energy serves b_c = %r" % (who, e, re_, im_, mod, math.hypot(re_, im_), who, served),
+                 atom=who, energy_eV=e, row=[e, re_, im_, mod])
+
 # ---------------------------------------------------------------- B. random compounds
 for i in range(nrandom):
     must = []
